@@ -114,6 +114,11 @@ var selBuilders = []selBuilder{
 	{"match-expr", "aggregate", selAgg(func(g *Gen, N string, l func() *Node) []*Node {
 		return []*Node{ObjN("$match", ObjN("$expr", ObjN("$eq", ArrN(StrN("$"+N).With(&Tag{Role: Ref}), l()))))}
 	})},
+	{"name-set-to-reference", "aggregate", selAgg(func(g *Gen, N string, l func() *Node) []*Node {
+		// the (matching or not) name is SET to a bare field reference; literals of other fields in the same stage,
+		// in later stages - and in later lines of the run - are under no matching name
+		return []*Node{ObjN("$addFields", ObjN(N, StrN("$contact.value").With(&Tag{Role: Ref}), "plain1", l())), ObjN("$match", ObjN("plain2", l())), ObjN("$project", ObjN(N, StrN("$plain3").With(&Tag{Role: Ref}), "plain4", ObjN("$literal", l())))}
+	})},
 	{"addFields", "aggregate", selAgg(func(g *Gen, N string, l func() *Node) []*Node {
 		return []*Node{ObjN("$addFields", ObjN(N, l(), "plain1", l(), "plain2", ObjN("$concat", ArrN(StrN("$plain1").With(&Tag{Role: Ref}), l()))))}
 	})},
